@@ -12,7 +12,7 @@ mcCallsS ==
    [op |-> "rst", sid |-> 2, code |-> 8], [op |-> "oout", sid |-> 1]}
 mcAdvC == {}
 mcAdvS ==
-  Singles({ASet(<<<<4, 3>>>>), ASet(<<<<4, 70000>>>>), ASet(<<<<2, 0>>>>), ASet(<<<<3, 1>>>>),
+  Singles({ASet(<<<<4, 3>>>>), ASet(<<<<4, 70000>>>>), ASet(<<<<2, 0>>>>), ASet(<<<<3, 1>>>>), ASet(<<<<3, 0>>>>),
            AWU(2, 5), AWU(2, 2147483647), ARst(2, 8), AD(2, 1, FALSE, -1), AH(2, "resp200", FALSE)})
 mcSetup == Handshake("s", <<>>) \o <<CRecv("s", <<AH(1, "req_get", FALSE)>>)>>
 mcQSids == <<1, 2, 4>>
